@@ -4,7 +4,7 @@ ID = "C03"
 PROP = {
     "props_module": "FV.Props.C03",
     "builders": {"gen": V.build_gen},
-    "suites": [("gen", "c03", {"quick": 900, "thorough": 12000})],
+    "suites": [("gen", "c03", {"quick": 900, "thorough": 90000})],
     "rule": "Random multi-file IDL programs with services (extends across files, oneway, void, throws) compiled by the real compiler; per case one method (own or inherited) of one emitted client, random argument values, one handler outcome (value / declared exception / plain error / TApplicationException of a given type), transport in-memory or HTTP (httptest + NewFrugalHandlerFunc + FHTTPTransport), protocol binary / compact / JSON; observed: number of handler invocations, arguments the handler saw, correlation id, what the caller got.",
     "trusted": ["Modelled, not verified: sockets, net/http, Apache Thrift protocol byte layouts; the transports are assumed to carry frames unchanged (C01/C04/C12)"],
     "level_text": "Theorems over the composition model FV.Rpc.call (emitted client -> frame-preserving transport -> emitted processor -> emitted result mapping), for ALL definitions tables, methods, well-typed argument values and handler behaviours: the handler is invoked exactly once with equal arguments; the caller observes exactly the returned value / the declared exception / INTERNAL_ERROR or the handler's own application exception type; a successful oneway produces no reply; an inherited method dispatches to the same processor function through the child's processor. Proved from the C02 round-trip theorem (used twice) and encoder totality. Tie: real emitted clients and processors with generated handler stubs, in-memory and HTTP transports, three protocols.",
